@@ -463,7 +463,7 @@ pub fn run(tier: Tier, seed: u64, replay: Option<String>) -> i32 {
         ctx.sample(json!(case_text(0, c)));
     }
     run_cases(&mut ctx, cases);
-    let n = tier.pick(6000, 100000);
+    let n = tier.pick(60000, 600000);
     let mut drv = Driver::new(seed, 6, 60);
     let rnd: Vec<Case> = drv
         .draw(n)
